@@ -697,7 +697,13 @@ func runHTTPServer(t *testing.T, c *HTTPCase, trace bool) *common.Outcome {
 			o.Fail("escaped-panic", "", "%s", p0)
 		}
 	}
-	if res.BudgetHit && o.V == nil {
+	if res.BudgetHit {
+		// (the run was cut off: what the unwinding goroutines report while the world is torn
+		// down is no verdict)
+		if o.V != nil {
+			o.Probe("report_during_teardown_discarded")
+			o.V = nil
+		}
 		o.Probe("inconclusive_step_budget_exhausted")
 		o.NonTrivial = false
 	}
